@@ -91,7 +91,11 @@ package frozenfunds
 //@   serves C16
 //@   requires f != nil
 //@   ensures bucket: result == ffModel(f, height)
-//@   modifies ffCache
+//@   # history ghosts of BeginBlock (C16): the bucket fetched for this block and the balances at that moment
+//@   ensures [assumed] recorded: fetched() && maturing() == result && balAtFetch == bal
+//@   # (state invariant, assumed: stored funds have a non-negative value)
+//@   ensures [assumed] values: result != nil ==> allocated(result) && allocated(result.List) && forall i int :: 0 <= i && i < len(result.List) ==> result.List[i].Value != nil && allocated(result.List[i].Value) && result.List[i].Value.val >= 0
+//@   modifies ffCache, fetched, maturing, balAtFetch
 
 //@ # total value of the funds in coin co among the first n items of a bucket
 //@ spec fundSum(l []Item, n int, co types.CoinID) int = n <= 0 ? 0 : fundSum(l, n-1, co) + (l[n-1].Coin == co ? l[n-1].Value.val : 0)
@@ -107,6 +111,7 @@ package frozenfunds
 //@   ensures reported: m != nil ==> ledgerDelta(f.bus.checker, anyFundCoin()) == old(ledgerDelta(f.bus.checker, anyFundCoin())) - old(fundSum(m.List, len(m.List), anyFundCoin()))
 //@   ensures nobucket: m == nil ==> ledgerDelta == old(ledgerDelta)
 //@   ensures listkept: m != nil ==> m.List == old(m.List)
+//@   modifies ffCache, ffDirtyMarks, Model.deleted, ledgerDelta
 //@   loop 0 invariant idx: -1 <= rangeindex && (rangeindex < len(ff.List) || (rangeindex == -1 && len(ff.List) == 0)) && ff == m && ff.List == old(m.List)
 //@   loop 0 invariant sum: ledgerDelta(f.bus.checker, anyFundCoin()) == old(ledgerDelta(f.bus.checker, anyFundCoin())) - old(fundSum(m.List, rangeindex + 1, anyFundCoin()))
 
